@@ -1,4 +1,5 @@
 """C25 Passwords are accepted exactly when they match (internal/server/auth/validate.go, hash.go, users_*.go)."""
+import hashlib
 import json
 import os
 import time
@@ -35,7 +36,7 @@ META = {
 LOGON_OK = [["ego.logon"], ["ego.root"], ["EGO.LOGON"], ["Ego.Root", "tables"], ["tables", "ego.logon"]]
 LOGON_NO = [["tables"], [], ["logon"], ["ego.logon "], ["root", "ego.logons"]]
 PWS = [b"s3cret", b"Tr0ub4dor&3", "pässwörd".encode(), b" pad ", b"A", b"q" * 71, b"Z9" * 36, b"L" * 80, b"correct horse battery staple"]
-RAWS = [b"", b"{}", b"{", b"}", b"$2a$garbage", b"$2b$", b"s3cret", b"5E884898DA28047151D0E56F8DC6292773603D0D6AABBDD62A11EF721D1542D8",
+RAWS = [b"", b"{}", b"{", b"}", b"$2a$garbage", b"$2b$", b"s3cret", hashlib.sha256(b"s3cret").hexdigest().upper().encode(),
         b"{unterminated", b"$2y$04$short"]
 
 
